@@ -112,6 +112,9 @@ def run(tier, seed):
         runs.append(("scanstorm_%d" % i, [fxa, "conc", "--mode", "scanstorm", "--out", os.path.join(rd, "asans_%d.ndjson" % i),
                                           "--seed", str(rng.randrange(1 << 30)), "--millis", "2500" if tier == "quick" else "6000",
                                           "--keys", str([16, 4, 64][i % 3]), "--stallmask", str([63, 31, 127][i % 3])]))
+    # the crate's other safe public type with unsafe inside: the aligned I/O buffer, through safe calls only
+    for i in range(2 if tier == "quick" else 8):
+        runs.append(("api_%d" % i, [fxa, "apisurface", "--seed", str(rng.randrange(1 << 30)), "--rounds", "300"]))
     for i in range(6 if tier == "quick" else 40):
         d = os.path.join(shm, "cr%d" % i)
         os.makedirs(d, exist_ok=True)
@@ -149,7 +152,8 @@ def run(tier, seed):
             viol.append({"what": "abnormal termination (rc=%s) of %s" % (rc, tag), "replay": p, "key": "abort"})
         elif rc == 4:
             p = v.save_replay("c20", tag + ".foreign.txt", "CMD: %s\n%s" % (" ".join(cmd), so[-500:]))
-            viol.append({"what": "a scan returned a key with another key's bytes in %s: %s" % (tag, so[-200:]), "replay": p, "key": "foreign value"})
+            viol.append({"what": ("a safe buffer call reported a capacity its allocation does not back in %s: %s" if tag.startswith("api_") else
+                                  "a scan returned a key with another key's bytes in %s: %s") % (tag, so[-200:]), "replay": p, "key": "foreign value"})
         elif rc == 3:
             p = v.save_replay("c20", tag + ".hang.txt", "CMD: %s\n%s" % (" ".join(cmd), so[-500:]))
             viol.append({"what": "hang in %s" % tag, "replay": p, "key": "hang"})
